@@ -385,6 +385,26 @@ func (h *H) projBlob(g *Gen, ci int, mode string) {
 		item := assemble(nil, v.es)
 		d, raw := put([][]byte{txb[0], txb[1], txb[2], rcb[0], item, rcb[2]}, 3)
 		res.Hit("proj-receipt:" + v.name)
+		h.blobWholeProjections("proj", ci, d, raw, mode)
+		// the premise of the reset in AllMapped / Iter: the CBOR library decodes INTO what the value
+		// already holds (absent key and null leave a scalar field as it was)
+		{
+			var reused struct {
+				Reverted     bool
+				RevertReason string
+			}
+			e1 := encoder.Unmarshal(rcb[0], &reused)
+			e2 := encoder.Unmarshal(item, &reused)
+			impl := "err"
+			if e1 == nil && e2 == nil {
+				impl = "ok " + render(reflect.TypeOf(false), reused.Reverted) + " " + render(reflect.TypeOf(""), reused.RevertReason)
+			}
+			res.Compared(1)
+			res.Hit("decode-into-existing-value:" + v.name)
+			if out := h.ask("into " + mode + " " + hx(rcb[0]) + " " + hx(item)); out != impl {
+				res.Mismatch(lib.Mismatch{Sig: "decode-into-existing-value/" + v.name, Input: clip(hx(item)), Model: firstDiff(out, impl), Impl: firstDiff(impl, out)})
+			}
+		}
 		res.Case("proj-receipt/"+hx(item), true)
 		viol := func(acc, kind, detail string) {
 			res.Violate(lib.Violation{Sig: "partial-vs-full-" + acc + "-" + kind, What: fmt.Sprintf("%s on a receipt record (%s): %s", acc, v.name, detail),
@@ -441,6 +461,7 @@ func (h *H) projBlob(g *Gen, ci int, mode string) {
 		item := assemble(tag, v.es)
 		d, raw := put([][]byte{txb[0], item, txb[2], rcb[0], rcb[1], rcb[2]}, 3)
 		res.Hit("proj-tx:" + v.name)
+		h.blobWholeProjections("proj", ci, d, raw, mode)
 		res.Case("proj-tx/"+hx(item), true)
 		viol := func(acc, kind, detail string) {
 			res.Violate(lib.Violation{Sig: "partial-vs-full-" + acc + "-" + kind, What: fmt.Sprintf("%s on a transaction record (%s): %s", acc, v.name, detail),
